@@ -5,6 +5,7 @@ Parser-side lemmas for C18: every arm of `parse_data_type_helper` on the token s
 set_option linter.unusedSimpArgs false
 namespace SqlVerif.DTy
 open SqlVerif.Pratt (W Sym str wordDisplay)
+variable {g : Bool}
 
 /-- what may follow the core of a type (before the `[]` suffixes) without extending it -/
 def followC : Option Tok → Bool
@@ -617,7 +618,7 @@ theorem pre_head_word (c : Cfg) (env : Env) (t : DT) (hl : isLeaf t = true) (hp 
   case set ls => exact ⟨_, _, _, _, rfl⟩
 
 theorem emit_head_word (c : Cfg) (env : Env) : ∀ (t : DT) (k : Nat) (T : List Tok), prod c env t = true →
-    ∃ v q kw r, emit c env t k T = .word v q kw :: r
+    ∃ v q kw r, emit c env g t k T = .word v q kw :: r
   | .arraySquare t sz, k, T, h => by
     simp only [prod, Bool.and_eq_true] at h
     simp only [emit]
@@ -636,37 +637,37 @@ theorem emit_head_word (c : Cfg) (env : Env) : ∀ (t : DT) (k : Nat) (T : List 
   | .arrayNone, k, T, _ => ⟨_, _, _, _, rfl⟩
   | .simple x, k, T, h => by
     obtain ⟨v, q, kw, r, hr⟩ := pre_head_word c env (.simple x) rfl h
-    exact ⟨v, q, kw, r ++ (run c k ++ T), by simp only [emit, hr, List.cons_append]⟩
+    exact ⟨v, q, kw, r ++ (run g k ++ T), by simp only [emit, hr, List.cons_append]⟩
   | .withLen x l, k, T, h => by
     obtain ⟨v, q, kw, r, hr⟩ := pre_head_word c env (.withLen x l) rfl h
-    exact ⟨v, q, kw, r ++ (run c k ++ T), by simp only [emit, hr, List.cons_append]⟩
+    exact ⟨v, q, kw, r ++ (run g k ++ T), by simp only [emit, hr, List.cons_append]⟩
   | .int x l u, k, T, h => by
     obtain ⟨v, q, kw, r, hr⟩ := pre_head_word c env (.int x l u) rfl h
-    exact ⟨v, q, kw, r ++ (run c k ++ T), by simp only [emit, hr, List.cons_append]⟩
+    exact ⟨v, q, kw, r ++ (run g k ++ T), by simp only [emit, hr, List.cons_append]⟩
   | .charLike x l, k, T, h => by
     obtain ⟨v, q, kw, r, hr⟩ := pre_head_word c env (.charLike x l) rfl h
-    exact ⟨v, q, kw, r ++ (run c k ++ T), by simp only [emit, hr, List.cons_append]⟩
+    exact ⟨v, q, kw, r ++ (run g k ++ T), by simp only [emit, hr, List.cons_append]⟩
   | .exactNum x i, k, T, h => by
     obtain ⟨v, q, kw, r, hr⟩ := pre_head_word c env (.exactNum x i) rfl h
-    exact ⟨v, q, kw, r ++ (run c k ++ T), by simp only [emit, hr, List.cons_append]⟩
+    exact ⟨v, q, kw, r ++ (run g k ++ T), by simp only [emit, hr, List.cons_append]⟩
   | .time x p z, k, T, h => by
     obtain ⟨v, q, kw, r, hr⟩ := pre_head_word c env (.time x p z) rfl h
-    exact ⟨v, q, kw, r ++ (run c k ++ T), by simp only [emit, hr, List.cons_append]⟩
+    exact ⟨v, q, kw, r ++ (run g k ++ T), by simp only [emit, hr, List.cons_append]⟩
   | .datetime64 p z, k, T, h => by
     obtain ⟨v, q, kw, r, hr⟩ := pre_head_word c env (.datetime64 p z) rfl h
-    exact ⟨v, q, kw, r ++ (run c k ++ T), by simp only [emit, hr, List.cons_append]⟩
+    exact ⟨v, q, kw, r ++ (run g k ++ T), by simp only [emit, hr, List.cons_append]⟩
   | .fixedString n, k, T, h => by
     obtain ⟨v, q, kw, r, hr⟩ := pre_head_word c env (.fixedString n) rfl h
-    exact ⟨v, q, kw, r ++ (run c k ++ T), by simp only [emit, hr, List.cons_append]⟩
+    exact ⟨v, q, kw, r ++ (run g k ++ T), by simp only [emit, hr, List.cons_append]⟩
   | .custom n m, k, T, h => by
     obtain ⟨v, q, kw, r, hr⟩ := pre_head_word c env (.custom n m) rfl h
-    exact ⟨v, q, kw, r ++ (run c k ++ T), by simp only [emit, hr, List.cons_append]⟩
+    exact ⟨v, q, kw, r ++ (run g k ++ T), by simp only [emit, hr, List.cons_append]⟩
   | .enum ls, k, T, h => by
     obtain ⟨v, q, kw, r, hr⟩ := pre_head_word c env (.enum ls) rfl h
-    exact ⟨v, q, kw, r ++ (run c k ++ T), by simp only [emit, hr, List.cons_append]⟩
+    exact ⟨v, q, kw, r ++ (run g k ++ T), by simp only [emit, hr, List.cons_append]⟩
   | .set ls, k, T, h => by
     obtain ⟨v, q, kw, r, hr⟩ := pre_head_word c env (.set ls) rfl h
-    exact ⟨v, q, kw, r ++ (run c k ++ T), by simp only [emit, hr, List.cons_append]⟩
+    exact ⟨v, q, kw, r ++ (run g k ++ T), by simp only [emit, hr, List.cons_append]⟩
 
 
 def nonWord : List Tok → Bool
@@ -689,7 +690,7 @@ theorem hasName_leaf (c : Cfg) (env : Env) (t : DT) (X : List Tok) (hl : isLeaf 
   exact fieldHasName_append (pre c env t) X (by rw [hr]; simp) hX
 
 theorem hasName_emit (c : Cfg) (env : Env) : ∀ (t : DT) (k : Nat) (T : List Tok), prod c env t = true →
-    nonWord (run c k ++ T) = true → fieldHasName (emit c env t k T) = twoWordsT c env t
+    nonWord (run g k ++ T) = true → fieldHasName (emit c env g t k T) = twoWordsT c env t
   | .arraySquare t sz, k, T, h, _ => by
     simp only [prod, Bool.and_eq_true, Bool.not_eq_true'] at h
     simp only [emit, twoWordsT]
@@ -704,7 +705,7 @@ theorem hasName_emit (c : Cfg) (env : Env) : ∀ (t : DT) (k : Nat) (T : List To
   | .union fs, k, T, _, _ => by simp [emit, twoWordsT, fieldHasName, LParen, Tok.isWord]
   | .struct .nil b, k, T, _, hX => by
     simp only [emit, twoWordsT]
-    cases hx : run c k ++ T with
+    cases hx : run g k ++ T with
     | nil => simp [fieldHasName]
     | cons x r => rw [hx] at hX; simp [fieldHasName]; intro _; simpa [nonWord] using hX
   | .struct (.cons n t r) .paren, k, T, _, _ => by simp [emit, twoWordsT, fieldHasName, LParen, Tok.isWord]
@@ -713,7 +714,7 @@ theorem hasName_emit (c : Cfg) (env : Env) : ∀ (t : DT) (k : Nat) (T : List To
   | .lowCardinality t, k, T, _, _ => by simp [emit, twoWordsT, fieldHasName, LParen, Tok.isWord]
   | .arrayNone, k, T, _, hX => by
     simp only [emit, twoWordsT, pre, List.cons_append, List.nil_append]
-    cases hx : run c k ++ T with
+    cases hx : run g k ++ T with
     | nil => simp [fieldHasName]
     | cons x r => rw [hx] at hX; simp [fieldHasName]; intro _; simpa [nonWord] using hX
   | .simple x, k, T, h, hX => by simp only [emit, twoWordsT]; exact hasName_leaf c env _ _ rfl h hX
